@@ -163,8 +163,14 @@ func (sc *SlotChain) Entry(ctx *EntryContext) *TokenResult {
 	// This should not happen, unless there are errors existing in Sentinel internal.
 	// If happened, need to add TokenResult in EntryContext
 	statPhaseStarted := false
+	// finished tells a panic from a normal return: recover() alone cannot, a panic with a nil value is
+	// recovered as nil under GODEBUG=panicnil=1 (the default of main modules that declare go < 1.21)
+	finished := false
 	defer func() {
-		if err := recover(); err != nil {
+		if err := recover(); err != nil || !finished {
+			if err == nil {
+				err = "panic called with nil argument"
+			}
 			logging.Error(errors.Errorf("%+v", err), "Sentinel internal panic in SlotChain.Entry()")
 			ctx.SetError(errors.Errorf("%+v", err))
 			if !statPhaseStarted {
@@ -228,6 +234,7 @@ func (sc *SlotChain) Entry(ctx *EntryContext) *TokenResult {
 			}
 		}
 	}
+	finished = true
 	return ruleCheckRet
 }
 
